@@ -143,7 +143,7 @@ def main(tier, seed):
     lib.build_coq()
     lib.build_driver()
     lib.build_harness()
-    n = lib.ncases(60 if tier == "quick" else 6000)
+    n = lib.ncases(100 if tier == "quick" else 6000)
     rng = random.Random(seed * 7919 + 11)
     d = lib.casedir(PID)
     insts = lib.load_corpus(PID) + [instgen.gen_instance(rng, rng.choice([{"slots": "some"}, {"slots": "some", "zero_shunting": True},
